@@ -222,6 +222,10 @@ pub struct St {
     /// The main thread did something since it was last released from `idle`, so a wake it
     /// sent to itself may still be pending: pump it once more.
     pub pump_again: bool,
+    /// Set by the wrapper around the main loop future whenever that future is woken; cleared
+    /// when it is polled. A pending wake means the main loop has work although it is about to
+    /// park.
+    pub root_woken: Option<Arc<std::sync::atomic::AtomicBool>>,
     /// ordinal of spawned task -> salsa event at which to inject a panic
     pub task_crash_plan: BTreeMap<u64, u64>,
     pub spawned_tasks: u64,
@@ -297,7 +301,11 @@ impl St {
             }
         }
         if t.is_main && matches!(&t.point, Some(p) if p.kind == PKind::Named("idle")) {
-            return self.wake_owed || self.pump_again;
+            let woken = self
+                .root_woken
+                .as_ref()
+                .map_or(self.pump_again, |f| f.load(std::sync::atomic::Ordering::SeqCst));
+            return self.wake_owed || woken;
         }
         true
     }
@@ -444,7 +452,12 @@ pub struct Core {
     st: Mutex<St>,
     cv: Condvar,
     pub watchdog: Duration,
+    /// Distinguishes the simulated threads of this run from threads an earlier run of the same
+    /// process may have left behind (they carry the same small local numbers).
+    epoch: u64,
 }
+
+static EPOCH: std::sync::atomic::AtomicU64 = std::sync::atomic::AtomicU64::new(1);
 
 #[derive(Debug)]
 pub enum Stall {
@@ -477,6 +490,7 @@ impl Core {
                 m_progress: 0,
                 m_progress_at_release: u64::MAX,
                 pump_again: false,
+                root_woken: None,
                 task_crash_plan: BTreeMap::new(),
                 spawned_tasks: 0,
                 probes: Probes::default(),
@@ -484,6 +498,7 @@ impl Core {
                 panics: Vec::new(),
             }),
             cv: Condvar::new(),
+            epoch: EPOCH.fetch_add(1, std::sync::atomic::Ordering::SeqCst),
             watchdog: Duration::from_secs(
                 std::env::var("VERIF_WATCHDOG_S")
                     .ok()
@@ -491,6 +506,19 @@ impl Core {
                     .unwrap_or(20),
             ),
         })
+    }
+
+    /// The identity to hand to `ide::verif::enter` for the local thread number `t`.
+    pub fn ident(&self, t: Tid) -> SimId {
+        (self.epoch << 32) | t
+    }
+
+    fn local(&self, who: SimId) -> Option<Tid> {
+        if who >> 32 == self.epoch {
+            Some(who & 0xffff_ffff)
+        } else {
+            None
+        }
     }
 
     pub fn lock(&self) -> MutexGuard<'_, St> {
@@ -773,6 +801,7 @@ pub struct Handle(pub Arc<Core>);
 impl Controller for Handle {
     fn at(&self, who: SimId, p: Point<'_>) {
         let core = &*self.0;
+        let Some(who) = core.local(who) else { return };
         let mut st = core.lock();
         if st.freerun || !st.threads.contains_key(&who) {
             return;
@@ -953,6 +982,18 @@ impl Controller for Handle {
 
     fn note(&self, who: Option<SimId>, n: Note) {
         let core = &*self.0;
+        let who = match who {
+            Some(w) => match core.local(w) {
+                Some(l) => Some(l),
+                // a thread of another run: snapshot counts are still ours (the guard reports
+                // to the controller that counted it), the identity is not
+                None => match n {
+                    Note::Exit => return,
+                    _ => None,
+                },
+            },
+            None => None,
+        };
         let mut st = core.lock();
         match n {
             Note::SnapshotTaken => {
@@ -984,6 +1025,7 @@ impl Controller for Handle {
 
     fn spawn(&self, parent: SimId) -> SimId {
         let core = &*self.0;
+        let Some(parent) = core.local(parent) else { return parent };
         let mut st = core.lock();
         let id = st.next_tid;
         st.next_tid += 1;
@@ -997,7 +1039,7 @@ impl Controller for Handle {
         }
         st.threads.insert(id, th);
         st.log(Some(parent), || format!("{parent} spawn {id}"));
-        id
+        core.ident(id)
     }
 }
 
